@@ -309,6 +309,16 @@ def run(ctx):
                                 m_ = re.match(r"(?:field|read read_)[ ]?[ui](\d+)", w.replace("field ", "field"))
                                 return int(m_.group(1)) if m_ else None
                             sb = [src_bits(w) for w in whys2]
+                            # an operand that reached this function as a parameter / slice element / return value carries no record of
+                            # the read that produced it: its own integer type is the width it can fill
+                            for i_, o_ in enumerate(t["ops"]):
+                                if sb[i_] is None and re.match(r"(param|ret )", whys2[i_] or ""):
+                                    lo_ = op_local(o_)
+                                    tn_ = (f.crate.ty(f.mir["locals"][lo_][0]) or "") if lo_ is not None else ""
+                                    # (only up to 32 bits: a 64-bit parameter is as a rule a widened narrower value, and the sum of two
+                                    # such values cannot leave 64 bits; direct u64 reads keep their own record)
+                                    if re.fullmatch(r"[ui](8|16|32)", tn_):
+                                        sb[i_] = int(tn_[1:])
                             l0 = op_local(t["ops"][0])
                             tn = (f.crate.ty(f.mir["locals"][l0][0]) or "") if l0 is not None else ""
                             ob = {"usize": 64, "isize": 64}.get(tn) or (int(re.sub(r"\D", "", tn)) if re.fullmatch(r"[ui]\d+", tn) else None)
@@ -316,7 +326,8 @@ def run(ctx):
                             if not narrow:
                                 ctx.ok(R_narrow, {"fn": path, "op": opk, "line": t["ln"], "type": tn, "source_bits": sb, "note": "carried out wider than the operands were read, or operand widths unknown (params / returns)"})
                             if narrow:
-                                if any(ft.sanitised(o, bb, strict=True) for o in t["ops"]):
+                                # both operands fill the width: a bound on one of them leaves the other free to overflow the sum / product
+                                if all(ft.sanitised(o, bb, strict=True) for o in t["ops"]):
                                     ctx.ok(R_narrow, {"fn": path, "op": opk, "line": t["ln"], "sanitised": True})
                                 else:
                                     ctx.bad(R_narrow, "C2|%s|%s|%s" % (path, opk, "+".join(w.split("→")[0] for w in whys2)), "%s:%d" % (f.file, t["ln"]),
